@@ -61,6 +61,9 @@ fn main() {
                 }
             }
             let cfg = RunCfg { root: root(), tier, seed };
+            if p.id() == "C13" {
+                std::process::exit(gtv::props::c13::custom_run(&cfg));
+            }
             std::process::exit(run_check(p.as_ref(), &cfg));
         }
         "trace" => {
